@@ -19,6 +19,40 @@ class AbsColl:
         return f"AbsColl({self.name})"
 
 
+class AbsMap:
+    """``[elt for target in coll if conds]`` over an abstract collection, kept lazy (comprehension rule:
+    the result has one element elt(x) per element x of coll that satisfies the conditions, in order)"""
+
+    def __init__(self, source, apply):
+        self.source = source
+        self.apply = apply      # apply(elem) -> (condition, value)
+
+
+def add_fact(coll, fact):
+    """record ``fact(elem)`` as holding for every element of coll (conclusion of loop rule R-forall or of a
+    built-in's contract such as max())"""
+    owner = coll.info.get("owner")
+    if owner is not None and getattr(owner, "tail", None) is not None:
+        owner.tail.setdefault("facts", []).append((coll.info.get("view"), fact))
+    else:
+        coll.facts.append(fact)
+
+
+def facts_for(coll, elem):
+    out = [f(elem) for f in coll.facts]
+    owner = coll.info.get("owner")
+    if owner is not None and getattr(owner, "tail", None) is not None:
+        view = coll.info.get("view")
+        for v2, f in owner.tail.get("facts", []):
+            if v2 == view:
+                out.append(f(elem))
+            elif view == "items" and v2 == "keys":
+                out.append(f(elem[0]))
+            elif view == "items" and v2 == "values":
+                out.append(f(elem[1]))
+    return out
+
+
 class Seg:
     def __init__(self, *key):
         self.key = key
@@ -69,6 +103,10 @@ class LoopSpec:
     def carried(self, E, L, coll):
         """havoced loop-carried state at the start of an arbitrary iteration / after the loop: dict name -> value"""
         return {}
+
+    def exit_state(self, E, L, coll):
+        """loop-carried state after the loop (default: the havoced state); L still holds the pre-loop values"""
+        return self.carried(E, L, coll)
 
     def element(self, E, case, coll):
         raise NotImplementedError
